@@ -25,15 +25,21 @@ static void raw_flt(const char* k, double d) { uint64_t u; memcpy(&u, &d, 8); ev
 static size_t unhex(const char* h, char* out, size_t cap) { size_t n = hc_unhex(h, (unsigned char*)out, cap - 1); out[n] = 0; return n; }
 
 /* sinks: a String pre-filled with digits, or a File with the same content */
+static int stale_sink;           /* the File sink is write-only and has a failed (caught) read behind it: stdio's error flag is set */
 static var sink_make(int isfile, const char* pre) {
   if (!isfile) return new_raw(String, $S((char*)pre));
   char p[128]; snprintf(p, sizeof p, "%s/sink", dir);
-  var f = new_raw(File, $S(p), $S("w+b"));
+  var f = new_raw(File, $S(p), $S(stale_sink ? "wb" : "w+b"));
   swrite(f, (void*)pre, strlen(pre));
+  if (stale_sink) { char c; try { sread(f, &c, 1); } catch (e) { } }
   return f;
 }
 static size_t sink_read(int isfile, var s, char* out, size_t cap) {
   if (!isfile) { size_t n = strlen(c_str(s)); if (n >= cap) n = cap - 1; memcpy(out, c_str(s), n); out[n] = 0; return n; }
+  if (stale_sink) {               /* write-only: read the file through a stream of its own */
+    sflush(s); char p[128]; snprintf(p, sizeof p, "%s/sink", dir);
+    FILE* g = fopen(p, "rb"); size_t n = g ? fread(out, 1, cap - 1, g) : 0; if (g) fclose(g); out[n] = 0; return n;
+  }
   sflush(s); long cur = (long)stell(s);
   sseek(s, 0, SEEK_SET);
   size_t n = fread(out, 1, cap - 1, ((struct File*)s)->file); out[n] = 0;
@@ -69,6 +75,7 @@ int main(int argc, char** argv) {
       for (int i = 3; i < hc_nw && np < 120; i++) {
         char* w = hc_w[i];
         if (!strncmp(w, "drop", 4)) { drop = atoi(w + 4); continue; }
+        if (!strcmp(w, "stale")) { stale_sink = isfile; continue; }
         if (w[0] == 'L') { size_t n = unhex(w + 1, tmp, sizeof tmp); strcat(fmt, tmp); parts[np] = strdup(tmp); plen[np] = n; isconv[np] = 0; np++; }
         else if (w[0] == 'P') { strcat(fmt, "%%"); parts[np] = strdup("%"); plen[np] = 1; isconv[np] = 0; np++; }
         else if (w[0] == 'C') {
@@ -138,6 +145,7 @@ int main(int argc, char** argv) {
       ev_int("showbad", showbad); bytes_key("out", outb, on); ev_int("ret", ret); ev_str("exc", hc_exc); ev_str("msg", hc_msg); ev_int("nargs", pass); ev_int("nconv", nconv);
       bytes_key("fmt", fmt, strlen(fmt)); ev_int("line", cur_line); ev_end();
       HC_TRY(del_raw(s)); for (int i = 0; i < np; i++) free(parts[i]);
+      stale_sink = 0;
       continue;
     }
     if (hc_is(0, "sio")) {
@@ -191,7 +199,10 @@ int main(int argc, char** argv) {
         HC_TRY(p1 = show_to(v, s, pos0));
         const char* e1 = hc_exc; char m1[160]; strcpy(m1, hc_msg);
         size_t on = sink_read(isfile, s, outb, sizeof outb);
+        /* the destination: a heap object, or (word 5 = elem) an element living inside an Array */
+        int elem = hc_nw > 5 && hc_is(5, "elem"); var holder = NULL;
         var back = kind == 'I' ? (var)new_raw(Int, $I(-12345)) : kind == 'F' ? (var)new_raw(Float, $F(-1.25)) : (var)new_raw(String, $S("?"));
+        if (elem) { holder = new_raw(Array, type_of(back), back, back); del_raw(back); back = get(holder, $I(1)); }
         if (isfile) sseek(s, pos0, SEEK_SET);
         const char* e2 = "";
         if (!e1[0]) { HC_TRY(p2 = look_from(back, s, pos0)); e2 = hc_exc; }
@@ -201,7 +212,7 @@ int main(int argc, char** argv) {
         else { bytes_key("v", c_str(v), strlen(c_str(v))); bytes_key("back", c_str(back), strlen(c_str(back))); bytes_key("denoted", c_str(v), strlen(c_str(v))); }
         ev_int("wrote", p1 - pos0); ev_int("consumed", p2 - pos0); bytes_key("text", outb + (on < (size_t)pos0 ? on : (size_t)pos0), on < (size_t)pos0 ? 0 : on - (size_t)pos0);
         ev_str("exc", e1[0] ? e1 : e2); ev_str("msg", e1[0] ? m1 : hc_msg); ev_int("line", cur_line); ev_end();
-        del_raw(v); del_raw(back);
+        del_raw(v); if (holder) del_raw(holder); else del_raw(back);
       } else {
         char spec[64]; snprintf(spec, sizeof spec, "%%%s ", hc_w[3]);
         char kind = hc_w[4][0]; int n = (int)hc_int(5);
